@@ -305,3 +305,177 @@ def _flags_table():
     it = I.concrete_iter(I.call_method(fa, "__iter__", [], {}))
     rows.append(dict(id="static/Flags.all:iteration-order", ok=it == CATS, detail=f"Flags.all() iterates {it} (the order in which the session offers the categories)"))
     return rows
+
+# ---------------------------------------------------------------------------------------------- snapshot(): the active path (C14 call sites)
+
+from pyvc.specs import SPEC_NS  # noqa: E402
+
+SNAPMAP, REF, CODEOBJ = Abs("SnapMap"), Abs("Ref"), Abs("CodeObj")
+KEY = parse_ty("Tuple[Int,Int]")
+
+
+def _sm_fns():
+    has = z3.Function("SnapMap_has", sort_of(SNAPMAP), sort_of(KEY), z3.BoolSort())
+    get = z3.Function("SnapMap_get", sort_of(SNAPMAP), sort_of(KEY), sort_of(REF))
+    return has, get
+
+
+def _snap_box(I, m_t):
+    box = Obj("dict", {"m": SV(m_t, SNAPMAP)})
+    has, get = _sm_fns()
+
+    def key_t(I2, key):
+        I2.ghost["used_key"] = key
+        try:
+            return pack(I2.ctx, key, KEY)
+        except Exception:  # noqa: BLE001 - a key of another shape: some key the contract knows nothing about (the key clause decides)
+            f = z3.Function("other_key", z3.StringSort(), sort_of(KEY))
+            return f(z3.StringVal(repr(key)[:200]))
+
+    def contains(I2, key):
+        return SV(has(box.fields["m"].t, key_t(I2, key)), BOOL)
+
+    def getitem(I2, key):
+        I2.implicit("KeyError", has(box.fields["m"].t, key_t(I2, key)), "snapshot-registered", None)
+        return SV(get(box.fields["m"].t, key_t(I2, key)), REF)
+
+    def setitem(I2, key, v):
+        old = box.fields["m"].t
+        new = z3.Const(I2.ctx.fresh_name("snapmap"), sort_of(SNAPMAP))
+        k = z3.Const(I2.ctx.fresh_name("k"), sort_of(KEY))
+        kt = key_t(I2, key)
+        I2.ctx.assume(z3.ForAll([k], z3.And(has(new, k) == z3.Or(k == kt, has(old, k)), get(new, k) == z3.If(k == kt, v.t, get(old, k))), patterns=[has(new, k), get(new, k)]), tag="store")
+        box.fields["m"] = SV(new, SNAPMAP)
+        I2.ghost["n_registered"] = I2.ghost["n_registered"] + 1
+        return None
+
+    box.fields.update({"__contains__": contains, "__getitem__": getitem, "__setitem__": setitem})
+    return box
+
+
+def _active_setup(I, env):
+    st = I.V.global_value(I, "state")
+    st.fields["snapshots"] = _snap_box(I, z3.Const(I.ctx.fresh_name("snapshots"), sort_of(SNAPMAP)))
+    files = Obj("set", {})
+
+    def add(I2, name):
+        I2.ghost["registered_file"] = name
+        return None
+
+    files.fields["add"] = add
+    st.fields["files_with_snapshots"] = files
+    # the frames: snapshot() <- ReprWrapper.__call__ <- the test code
+    code = fresh_value(I.ctx, CODEOBJ, "caller_code")
+    caller = Obj("frame", {"f_code": code, "f_lasti": fresh_value(I.ctx, INT, "caller_lasti"), "f_lineno": fresh_value(I.ctx, INT, "caller_lineno"), "f_globals": Opaque("globals"), "f_locals": Opaque("locals"),
+                           "f_back": None})
+    wrapper = Obj("frame", {"f_code": fresh_value(I.ctx, CODEOBJ, "wrapper_code"), "f_lasti": fresh_value(I.ctx, INT, "wrapper_lasti"), "f_back": caller,
+                            "f_globals": Opaque("g"), "f_locals": Opaque("l")})
+    own = Obj("frame", {"f_code": fresh_value(I.ctx, CODEOBJ, "own_code"), "f_lasti": fresh_value(I.ctx, INT, "own_lasti"), "f_back": wrapper,
+                        "f_globals": Opaque("g"), "f_locals": Opaque("l")})
+    I.ghost["own_frame"], I.ghost["caller_frame"] = own, caller
+
+
+def p_currentframe(I, args, kwargs, node):
+    return I.ghost["own_frame"]
+
+
+def p_executing(I, args, kwargs, node):
+    """Source.executing(frame): the ast.Call that is running in that frame (X11) - or an object without a node"""
+    I.ghost["executing_frame"] = args[-1]
+    e = Obj("executing.Executing", {"source": Opaque("source")})
+    e.fields["node"] = fresh_value(I.ctx, Abs("Node"), "call_node") if I.ctx.choose() else None
+    I.ghost["expr"] = e
+    return e
+
+
+def p_getmodule(I, args, kwargs, node):
+    if I.ctx.choose():
+        return None
+    m = Obj("module", {"__file__": fresh_value(I.ctx, STR, "module_file") if I.ctx.choose() else None})
+    I.ghost["module"] = m
+    return m
+
+
+def p_snapshot_reference(I, args, kwargs, node):
+    r = SV(z3.Const(I.ctx.fresh_name("ref"), sort_of(REF)), REF)
+    I.ghost["n_created"] = I.ghost["n_created"] + 1
+    I.ghost["created_obj"], I.ghost["created_expr"] = args[0], args[1]
+    return r
+
+
+def p_ref_re_eval(I, a, k, n):
+    I.ghost["n_re_eval"] = I.ghost["n_re_eval"] + 1
+    I.ghost["re_eval_on"], I.ghost["re_eval_obj"] = a[0], a[1]
+    if not I.ctx.choose():
+        raise RaiseSig("UsageError", info=["_re_eval"])
+    return None
+
+
+DEFAULT_POLICIES["attrs"].update({"Ref._re_eval": p_ref_re_eval, "Ref._value": "Val",
+                                  # other observable attributes of a code object: none of them identifies it
+                                  "CodeObj.co_filename": "Str", "CodeObj.co_firstlineno": "Int", "CodeObj.co_name": "Str", "CodeObj.co_qualname": "Str"})
+
+
+def active_id_of(I, v):
+    """id(code object): an injective function of the object (PS9: unique while the object is alive)"""
+    f = z3.Function("id_of_code", sort_of(CODEOBJ), z3.IntSort())
+    a, b = z3.Consts("idc!a idc!b", sort_of(CODEOBJ))
+    I.ctx.define("id-injective", lambda: z3.ForAll([a, b], z3.Implies(f(a) == f(b), a == b), patterns=[z3.MultiPattern(f(a), f(b))]))
+    I.ghost["id_taken_of"] = v
+    return SV(f(v.t), INT)
+
+
+def s_sm_has(I, box, key):
+    has, _ = _sm_fns()
+    return SV(has(box.fields["m"].t, pack(I.ctx, key, KEY)), BOOL)
+
+
+def s_sm_get(I, box, key):
+    _, get = _sm_fns()
+    return SV(get(box.fields["m"].t, pack(I.ctx, key, KEY)), REF)
+
+
+def s_site_key(I):
+    """the identity of the call site: the code object of the calling frame and the offset of the running instruction"""
+    c = I.ghost["caller_frame"]
+    f = z3.Function("id_of_code", sort_of(CODEOBJ), z3.IntSort())
+    return (SV(f(c.fields["f_code"].t), INT), c.fields["f_lasti"])
+
+
+def s_ref_value(I, r):
+    return SV(z3.Function("Ref__value", sort_of(REF), sort_of(Abs("Val")))(r.t), Abs("Val"))
+
+
+SPEC_NS.update({"sm_has": s_sm_has, "sm_get": s_sm_get, "site_key": s_site_key, "ref_value": s_ref_value})
+
+contract(
+    IS + ".snapshot",
+    name=IS + ".snapshot#active",
+    params={"obj": "Val"},
+    globals_={"state": "@PlainState"},
+    requires={"active": "state.active"},
+    callees={"inspect.currentframe": p_currentframe, "Source.executing": p_executing, "executing.Source.executing": p_executing, "inspect.getmodule": p_getmodule,
+             "SnapshotReference": p_snapshot_reference, "AdapterContext": "havoc", "SourceFile": "havoc", "FrameContext": "havoc", "cast": lambda I, a, k, n: a[-1],
+             "typing.cast": lambda I, a, k, n: a[-1]},
+    returns=None,
+    result_name="ret",
+    ensures={
+        # C14: "each call site has its own state": the key is the calling code object (by identity) and the instruction offset
+        "call-site-key [C14]": "used_key == site_key() and executing_frame is caller_frame",
+        "registered-once-per-call-site [C14]": "sm_has(state.snapshots, site_key()) and n_registered == (0 if sm_has(old(state.snapshots), site_key()) else 1) and n_created == n_registered",
+        # C14: "repeated evaluation aggregates": a second evaluation re-uses the reference and re-evaluates the argument
+        "second-evaluation-reuses-the-reference [C14]": "implies(sm_has(old(state.snapshots), site_key()), n_re_eval == 1 and same(re_eval_on, sm_get(old(state.snapshots), site_key()))"
+                                                        " and same(re_eval_obj, obj) and same(sm_get(state.snapshots, site_key()), sm_get(old(state.snapshots), site_key())))",
+        "first-evaluation-records-the-argument [C14,C01]": "implies(not sm_has(old(state.snapshots), site_key()), n_re_eval == 0 and same(created_obj, obj)"
+                                                           " and ((created_expr is None) == (expr.node is None)) and implies(expr.node is not None, created_expr is expr))",
+        "returns-the-value-object-of-the-call-site [C14,C06]": "same(ret, ref_value(sm_get(state.snapshots, site_key())))",
+        # C13 "no test file that took part in the session": every file with an executed snapshot is registered
+        "file-takes-part-in-the-session [C13,C03]": "ifdef(['module'], implies(module.__file__ is not None, registered_file == module.__file__))",
+    },
+    raises={"UsageError": {"only-from-re-evaluation [C14]": "n_re_eval == 1"}, "AssertionError": {"only-frame-and-node-sanity [C18]": "True"}},
+    ghost={"vars": {"own_frame": "=None", "caller_frame": "=None", "executing_frame": "=None", "expr": "=None", "used_key": "=None", "n_registered": "=0", "n_created": "=0",
+                    "created_obj": "=None", "created_expr": "=None", "n_re_eval": "=0", "re_eval_on": "=None", "re_eval_obj": "=None", "registered_file": "=None", "id_taken_of": "=None"},
+           "setup": _active_setup, "id_of": active_id_of, "asserts_raise": True},
+    safety_props=["C18"],
+    assumes=["X11", "PS9"],
+)
